@@ -456,6 +456,15 @@ int64_t cmi_pool_acquire_inner(struct cmb_resourcepool *rpp,
                 const bool found = cmi_process_remove_holdable(victim, hrp);
                 cmb_assert_debug(found == true);
 
+                /*
+                 * Whatever the victim was waiting for is off, as of now. (If it
+                 * was itself waiting for more from this pool and its wakeup call
+                 * was already on its way, it would otherwise carry on with a
+                 * request that it has just lost the first part of, and report
+                 * success holding less than it asked for.)
+                 */
+                cmi_process_cancel_awaiteds(victim);
+
                 /* Schedule a wakeup for it, but do not switch context yet */
                 cmb_process_interrupt(victim, CMB_PROCESS_PREEMPTED, victim->priority);
 
